@@ -122,6 +122,8 @@ func (w *Wire) resolveSliceLit(info *types.Info, files []*ast.File, e ast.Expr) 
 							n++
 							if cl, isCl := s.Rhs[i].(*ast.CompositeLit); isCl {
 								found, ok = cl.Elts, true
+							} else if _, isCall := s.Rhs[i].(*ast.CallExpr); isCall {
+								found, ok = w.resolveSliceLit(info, files, s.Rhs[i]) // v := listHelper()
 							}
 						}
 					}
@@ -131,6 +133,8 @@ func (w *Wire) resolveSliceLit(info *types.Info, files []*ast.File, e ast.Expr) 
 							n++
 							if cl, isCl := s.Values[i].(*ast.CompositeLit); isCl {
 								found, ok = cl.Elts, true
+							} else if _, isCall := s.Values[i].(*ast.CallExpr); isCall {
+								found, ok = w.resolveSliceLit(info, files, s.Values[i])
 							}
 						}
 					}
@@ -190,10 +194,19 @@ func BuildWire(p *Prog) *Wire {
 					name := objFull(calleeObj(info, x))
 					switch {
 					case name == "sdk/types.NewKVStoreKeys":
-						w.StoreKeys = append(w.StoreKeys, w.constList(info, x.Args, "NewKVStoreKeys")...)
+						keyArgs := x.Args
+						if x.Ellipsis.IsValid() && len(keyArgs) == 1 {
+							// NewKVStoreKeys(names...) with the names in a package-level slice or a list helper
+							if elts, ok := w.resolveSliceLit(info, pk.Syntax, keyArgs[0]); ok {
+								keyArgs = elts
+							} else {
+								w.Problems = append(w.Problems, "NewKVStoreKeys: argument list is not a fixed literal at "+p.Pos(x.Pos()))
+							}
+						}
+						w.StoreKeys = append(w.StoreKeys, w.constList(info, keyArgs, "NewKVStoreKeys")...)
 						w.StoreKeyPos = x.Pos()
 						// module owning each store key: the ModuleName constant declared next to the StoreKey constant used
-						for _, a := range x.Args {
+						for _, a := range keyArgs {
 							k, ok := constStr(info, a)
 							if !ok {
 								continue
@@ -648,6 +661,11 @@ func wireAnte(p *Prog, r *Report, clause string) {
 		}
 		sort.Strings(names)
 		ok := len(callers) == 1 && strings.HasSuffix(names[0], "AppModule).RegisterServices")
+		if !ok && len(callers) == 1 && strings.Contains(names[0], "AppModule).") {
+			// a helper method of the module that only RegisterServices calls
+			up, _ := p.CallersOf(callers[0])
+			ok = len(up) == 1 && strings.HasSuffix(FuncName(up[0]), "AppModule).RegisterServices")
+		}
 		r.Check(ok, kp("WIRE", mod+"#MsgServer-registered-once"), "the module's MsgServer is registered exactly once, through RegisterServices", mod+"/module.go",
 			"registered in "+strings.Join(names, ","), "RegisterMsgServer is called from: "+strings.Join(names, ", "))
 		// … and what is registered is the implementation whose handlers are analysed: the module has exactly one hand-written
